@@ -80,8 +80,10 @@ def corpus():
     return [dict(cfg=c, rows=rows), dict(cfg=v, rows=rows_v), dict(cfg=v, prog=prog), dict(cfg=c, prog=prog)]
 
 
-def _write(env, cfg, prog):
-    """Run a write program through the real ORM on emptied tables; returns the version table it left."""
+def _write(env, cfg, prog, keep=None):
+    """Run a write program through the real ORM on emptied tables; returns the version table it left.
+    keep = (session, list): the program runs in that session, which stays open; after every transaction the
+    application looks at the accessors of every version and keeps the version objects (they are read again at the end)."""
     import sqlalchemy as sa
     Article = env.Article
     kc = T.keycols(cfg)
@@ -89,7 +91,8 @@ def _write(env, cfg, prog):
     conn.execute(env.version_class(Article).__table__.delete())
     conn.execute(Article.__table__.delete())
     conn.commit()
-    s = env.session()
+    s = keep[0] if keep else env.session()
+    V = env.version_class(Article)
     try:
         for tx in prog:
             for op in tx:
@@ -104,17 +107,29 @@ def _write(env, cfg, prog):
                 else:
                     s.delete(s.get(Article, ident))
             s.commit()
+            if keep:
+                for v in s.query(V).all():
+                    v.next, v.previous, v.index
+                    if not any(v is o for o in keep[1]):
+                        keep[1].append(v)
     finally:
-        s.close()
+        if not keep:
+            s.close()
     return T.read_rows(env, cfg)
 
 
 def _observe(env, cfg, rows, prog=None):
     import sqlalchemy as sa
+    keep = None
     if prog is not None:
+        # half of the end-to-end cases read the accessors in the SAME session that wrote, after every transaction, and
+        # hold on to the version objects: the final answers come from objects first looked at in an earlier state
+        keep = (env.session(), []) if len(prog) % 2 else None
         try:
-            rows = _write(env, cfg, prog)
+            rows = _write(env, cfg, prog, keep)
         except Exception as e:
+            if keep:
+                keep[0].close()
             return dict(vers=[], rows=[], exc='write: %s: %s' % (type(e).__name__, str(e)[:200]), tbl=[])
     else:
         T.load_rows(env, cfg, rows)
@@ -123,7 +138,7 @@ def _observe(env, cfg, rows, prog=None):
     kc = T.keycols(cfg)
     Article = env.Article
     V = env.version_class(Article)
-    s = env.session()
+    s = keep[0] if keep else env.session()
     try:
         vers = []
         for parent in s.query(Article).all():
